@@ -64,7 +64,7 @@ def valid(case):
                 return False
             for ob in _objects(x):
                 f = [gen.fold(k) for k in ob]
-                if len(set(f)) != len(f):
+                if len(set(f)) != len(f) or gen.digit_word_collision(list(ob)):
                     return False
         return _floats_ok(s)
     except Exception:  # noqa: BLE001
